@@ -81,6 +81,20 @@ REGISTRY = {
         assumptions=COMMON_ASSUMPTIONS + ["complex energy gaps enter as atoms |E_a-E_b|^2 != 0"],
         timeout_s={"quick": 300, "thorough": 1500},
     ),
+    "C18": dict(
+        jobs=lambda tier, seed: __import__("vf.props.cauchy", fromlist=["configs"]).configs(tier, seed),
+        job_of_config=_job_of("vf.props.cauchy", "c18"),
+        technique="real cauchy_dot_product / product_by_order executed on BlockSeries of symbolic matrices; z3 decides product element != own nested-loop sum over intermediate blocks and order splittings "
+        "(zero = absent, one = identity), for 2-4 factors, rectangular blocks, 1-3 parameters, enumerated sentinel patterns and request schedules; hermitian=True vs False on X^dagger X and X^dagger B X; "
+        "concrete call-log obligation: a lazily evaluated factor element is requested only if a complementary element of the other factor is not declared absent, and never twice",
+        bounds={
+            "quick": "2-4 factors, blocks of dims 1-2 (up to 3x3 blocks), 1-3 parameters, factor terms to order 1-2, requests to total order 2-3, three schedules; sentinel patterns on the 2x2-block/orders{0,1}/2-factor grid: "
+            "every single cell absent, every diagonal cell identity, 60 cross-factor pairs, 50 random dense patterns",
+            "thorough": "as quick plus all 1000+ cross-factor sentinel pairs, 500 random dense patterns, 3x3 blocks to order 3, three parameters to order 3",
+        },
+        assumptions=COMMON_ASSUMPTIONS[:1] + COMMON_ASSUMPTIONS[2:] + ["`one` is only placed on square diagonal blocks (its documented meaning: identity at zeroth order)"],
+        timeout_s={"quick": 300, "thorough": 900},
+    ),
 }
 
 # Properties not (yet) claimed, each with the reason.  Entries disappear as checks are registered.
